@@ -561,6 +561,38 @@ pub fn generate(thorough: bool) -> Vec<Dup> {
         }
     }
 
+    // ---- 11. differently-cased look-alikes of the query-carrier names are ordinary parameters
+    for (n, v) in [
+        ("x-amz-algorithm", "AWS4-HMAC-SHA256"),
+        ("X-AMZ-ALGORITHM", "AWS4-HMAC-SHA256"),
+        ("X-Amz-algorithm", "AWS4-HMAC-SHA256"),
+        ("x-amz-signature", "0000"),
+        ("x-amz-credential", "AKIDOTHER/20150830/us-east-1/service/aws4_request"),
+    ] {
+        let mut plan = e2e::base_plan(Carrier::Header);
+        plan.url_params = vec![(n.as_bytes().to_vec(), v.as_bytes().to_vec())];
+        let built = build(&plan);
+        out.push(Dup {
+            label: format!("header carrier with look-alike query parameter {}", n),
+            wire: WireReq::from_wire(&built.wire),
+            cfg: cfg.clone(),
+            expect_ok: true,
+            expect_ask: Some((e2e::ACCESS_KEY.into(), None)),
+            expect_both_carriers: false,
+        });
+        let mut plan = e2e::base_plan(Carrier::Query);
+        plan.url_params = vec![(n.as_bytes().to_vec(), v.as_bytes().to_vec())];
+        let built = build(&plan);
+        out.push(Dup {
+            label: format!("query carrier with look-alike query parameter {}", n),
+            wire: WireReq::from_wire(&built.wire),
+            cfg: cfg.clone(),
+            expect_ok: true,
+            expect_ask: Some((e2e::ACCESS_KEY.into(), None)),
+            expect_both_carriers: false,
+        });
+    }
+
     // ---- pairs of simultaneously duplicated inputs (thorough): token x date, both header carrier
     if thorough {
         for (n1, k1) in nk() {
